@@ -76,7 +76,7 @@ def lift(inst, wd):
     incs = []
     for s in inst.get('shims', []):
         incs += ['-I' + os.path.join(ROOT, 'shim', s)]
-    incs += ['-I' + REPO, '-I' + os.path.join(REPO, 'dispenso', 'third-party', 'moodycamel'), '-I' + RT,
+    incs += ['-I' + REPO, '-I' + os.path.join(REPO, 'dispenso', 'third-party'), '-I' + RT,
              '-I' + os.path.join(ROOT, 'harness', 'common')]
     flags = list(CLANG_FLAGS) + inst.get('cflags', [])
     if not inst.get('exceptions'):
@@ -87,7 +87,7 @@ def lift(inst, wd):
         out = os.path.join(wd, 'u%d.ll' % i)
         rc, o, e, t = sh(['clang++-14'] + flags + defs + incs + ['-S', '-emit-llvm', s, '-o', out], timeout=300)
         if rc != 0:
-            raise Inconclusive('clang failed on %s:\n%s' % (s, e[-3000:]))
+            raise Inconclusive('clang failed on %s: %s' % (s, e[:500]))
         lls.append(out)
     out = os.path.join(wd, 'h.ll')
     if len(lls) == 1:
@@ -108,11 +108,11 @@ def demangle(names):
 
 
 # ------------------------------------------------------------------------------------ cbmc
-def cbmc_cmd(cfile, inst, witness):
+def cbmc_cmd(cfile, inst, witness, trace=False):
     unwind = inst.get('unwind', 4)
     nthr = inst.get('nthreads', 5)
     cmd = ['cbmc', cfile, '-I' + RT, '--function', 'vf_entry', '--unwind', str(unwind),
-           '--no-malloc-may-fail', '--drop-unused-functions', '--slice-formula',
+           '--no-malloc-may-fail', '--drop-unused-functions',
            '--json-ui', '--object-bits', str(inst.get('object_bits', 10))]
     us = ['%s:%d' % (l, nthr + 1) for l in RT_LOOPS]
     for k, v in inst.get('unwindset', {}).items():
@@ -134,8 +134,13 @@ def cbmc_cmd(cfile, inst, witness):
         cmd.append('-D%s=%s' % (k, v))
     if witness:
         cmd.append('-DVF_WITNESS')
-    else:
+    if trace:
+        # full (unsliced) trace so that every logged input and every visible operation is present
         cmd.append('--trace')
+        for p in trace if isinstance(trace, (list, tuple)) else []:
+            cmd += ['--property', p]
+    else:
+        cmd.append('--slice-formula')
     return cmd
 
 
@@ -267,8 +272,8 @@ def em_reachable_defined(mod, em, inst):
     return [n for n in funcs if not mod.funcs[n].is_decl]
 
 
-def run_cbmc(inst, prep, witness):
-    cmd = cbmc_cmd(prep['cfile'], inst, witness)
+def run_cbmc(inst, prep, witness, trace=False):
+    cmd = cbmc_cmd(prep['cfile'], inst, witness, trace)
     timeout = inst.get('timeout', 600)
     rc, out, err, t = sh(cmd, timeout=timeout, mem_gb=inst.get('mem_gb', 14))
     res = {'cmd': ' '.join(cmd), 'time_s': round(t, 2), 'rc': rc}
@@ -335,6 +340,15 @@ def run_instance(inst, tier):
     props = m['results']
     rec['queries'] = len(props)
     fails = [r for r in props if r['status'] == 'FAILURE']
+    if fails:
+        # second run, unsliced and with traces, restricted to the failing properties
+        m2 = run_cbmc(inst, prep, False, trace=[r['property'] for r in fails][:8])
+        if m2['status'] == 'done':
+            byid = {r['property']: r for r in m2['results']}
+            for r in fails:
+                if r['property'] in byid and byid[r['property']].get('trace'):
+                    r['trace'] = byid[r['property']]['trace']
+            rec['trace_run_s'] = m2.get('time_s')
     rec['by_class'] = {}
     for r in props:
         c = classify(r['description'])
